@@ -274,9 +274,9 @@ pub fn run_c08(tier: Tier) -> i32 {
     let kinds = all_kinds();
     let choice = |d: usize| Backend::Choice(ExploreCfg { dev_bound: Some(d), fv: FvPolicy::False, cap_alts: 16, max_execs: 400, ..ExploreCfg::default() });
     let mut plans = vec![
-        DynPlan { name: "2 labels, from the empty solver, CaDiCaL".into(), kinds: kinds.clone(), n_labels: 2, depth: if thorough { 9 } else { 7 }, bad_budget: 0, max_queries: 3, prefixes: vec![vec![]], backend: Backend::Cadical, only_with_bad: false, queries_only: false, updates_then_query: false },
+        DynPlan { name: "2 labels, from the empty solver, CaDiCaL".into(), kinds: kinds.clone(), n_labels: 2, depth: if thorough { 8 } else { 7 }, bad_budget: 0, max_queries: 3, prefixes: vec![vec![]], backend: Backend::Cadical, only_with_bad: false, queries_only: false, updates_then_query: false },
         DynPlan { name: "3 labels, from the empty solver, CaDiCaL".into(), kinds: kinds.clone(), n_labels: 3, depth: if thorough { 7 } else { 6 }, bad_budget: 0, max_queries: 3, prefixes: vec![vec![]], backend: Backend::Cadical, only_with_bad: false, queries_only: false, updates_then_query: false },
-        DynPlan { name: "2 labels, from the empty solver, oracle choices".into(), kinds: kinds.clone(), n_labels: 2, depth: if thorough { 7 } else { 6 }, bad_budget: 0, max_queries: 3, prefixes: vec![vec![]], backend: choice(if thorough { 2 } else { 1 }), only_with_bad: false, queries_only: false, updates_then_query: false },
+        DynPlan { name: "2 labels, from the empty solver, oracle choices".into(), kinds: kinds.clone(), n_labels: 2, depth: if thorough { 8 } else { 6 }, bad_budget: 0, max_queries: 3, prefixes: vec![vec![]], backend: choice(if thorough { 2 } else { 1 }), only_with_bad: false, queries_only: false, updates_then_query: false },
         DynPlan { name: "3 labels, from the empty solver, oracle choices".into(), kinds: kinds.clone(), n_labels: 3, depth: if thorough { 6 } else { 5 }, bad_budget: 0, max_queries: 2, prefixes: vec![vec![]], backend: choice(1), only_with_bad: false, queries_only: false, updates_then_query: false },
         DynPlan { name: "non-initial starts: every framework with <=3 arguments, compact and sparse-id construction, then all continuations, oracle choices".into(), kinds: kinds.clone(), n_labels: 3, depth: if thorough { 3 } else { 2 }, bad_budget: 0, max_queries: 3, prefixes: start_states(3), backend: choice(2), only_with_bad: false, queries_only: false, updates_then_query: false },
     ];
@@ -286,9 +286,6 @@ pub fn run_c08(tier: Tier) -> i32 {
         let mut starts = vec![];
         for g in crate::universe::iso_representatives(4) {
             starts.push(construction_history(&g, false));
-            if thorough {
-                starts.push(construction_history(&g, true));
-            }
         }
         if thorough {
             plans.push(DynPlan { name: "4 labels: one framework per isomorphism class of U(4), then every sequence of 3 queries, CaDiCaL".into(), kinds: kinds.clone(), n_labels: 4, depth: if thorough { 3 } else { 2 }, bad_budget: 0, max_queries: 3, prefixes: starts.clone(), backend: Backend::Cadical, only_with_bad: false, queries_only: true, updates_then_query: false });
